@@ -519,39 +519,30 @@ theorem C18_license_needs_single_line_named :
 
 /-! ### Signed-By -/
 
-/-- only `KeyPath` values round-trip -/
+/-- exact side condition: a key path is a single line; every key block is canonical -/
 def CanonSignature : Signature → Prop
   | .keyPath p => '\n' ∉ p
-  | .keyBlock _ => False
+  | .keyBlock _ => True
 
-theorem C18_signature_roundtrip_partial (s : Signature) (h : CanonSignature s) :
+/-- Signed-By values, key blocks and key paths alike -/
+theorem C18_signature_roundtrip (s : Signature) (h : CanonSignature s) :
     Signature.parse (Signature.print s) = s := by
   cases s with
-  | keyBlock t => exact absurd h id
+  | keyBlock t => simp [Signature.print, Signature.parse]
   | keyPath p =>
     simp only [CanonSignature] at h
     simp [Signature.print, Signature.parse, h]
 
+theorem C18_signature_canonical (s : Signature) (h : CanonSignature s) :
+    Signature.print (Signature.parse (Signature.print s)) = Signature.print s := by
+  rw [C18_signature_roundtrip s h]
+
 example : CanonSignature (.keyPath "/usr/share/keyrings/k.gpg".toList) := by simp only [CanonSignature]; decide
+example : CanonSignature (.keyBlock "-----BEGIN PGP PUBLIC KEY BLOCK-----\n.\n".toList) := trivial
 
-/-- the excluded case (a finding about apt-sources/src/signature.rs): *no* `KeyBlock` value
-    round-trips — Display prepends a newline that FromStr does not remove -/
-theorem C18_signature_keyblock_never (t : Str) :
-    Signature.parse (Signature.print (.keyBlock t)) = .keyBlock ('\n' :: t)
-    ∧ Signature.parse (Signature.print (.keyBlock t)) ≠ .keyBlock t := by
-  have : Signature.parse (Signature.print (.keyBlock t)) = .keyBlock ('\n' :: t) := by
-    simp [Signature.print, Signature.parse]
-  refine ⟨this, ?_⟩
-  rw [this]
-  intro e
-  injection e with e
-  have := congrArg List.length e
-  simp at this
-
-/-- … and no multi-line text is reproduced by parse-then-print -/
-theorem C18_signature_multiline_never (s : Str) (h : '\n' ∈ s) :
-    Signature.print (Signature.parse s) = '\n' :: s := by
-  simp [Signature.print, Signature.parse, h]
+/-- a path with a newline reads back as a key block -/
+theorem C18_signature_needs_single_line_path :
+    Signature.parse (Signature.print (.keyPath "a\nb".toList)) = .keyBlock "a\nb".toList := by decide +kernel
 
 /-! ### VCS locations -/
 
@@ -906,23 +897,6 @@ theorem C18_vcs_unknown_name_rejected (value : Str) : Vcs.fromField "Darcs".toLi
 
 /-! ### package-list entry -/
 
-theorem splitOn_none (sep : Char) (v : Str) (h : sep ∉ v) : splitOn sep v = [v] := by
-  induction v with
-  | nil => rfl
-  | cons c cs ih =>
-    have hc : c ≠ sep := by intro e; apply h; simp [e]
-    have hcs : sep ∉ cs := by intro e; apply h; simp [e]
-    simp [splitOn, hc, ih hcs]
-
-theorem splitOn_cons (sep : Char) (k v : Str) (h : sep ∉ k) :
-    splitOn sep (k ++ sep :: v) = k :: splitOn sep v := by
-  induction k with
-  | nil => simp [splitOn]
-  | cons c cs ih =>
-    have hc : c ≠ sep := by intro e; apply h; simp [e]
-    have hcs : sep ∉ cs := by intro e; apply h; simp [e]
-    simp [splitOn, hc, ih hcs]
-
 theorem strLt_irrefl (a : Str) : strLt a a = false := by
   induction a with
   | nil => rfl
@@ -964,14 +938,15 @@ def kvText (p : Str × Str) : Str := p.1 ++ '=' :: p.2
 def KeysSorted (m : List (Str × Str)) : Prop := m.Pairwise (fun p q => strLt p.1 q.1 = true)
 
 theorem parseExtras_sorted (m1 m2 : List (Str × Str)) (hs : KeysSorted (m1 ++ m2))
-    (he : ∀ p ∈ m2, '=' ∉ p.1 ∧ '=' ∉ p.2) :
+    (he : ∀ p ∈ m2, '=' ∉ p.1) :
     parseExtras (m2.map kvText) m1 = some (m1 ++ m2) := by
   induction m2 generalizing m1 with
   | nil => simp [parseExtras]
   | cons p r ih =>
-    obtain ⟨hk, hv⟩ := he p (by simp)
-    have hsp : splitOn '=' (kvText p) = [p.1, p.2] := by
-      rw [kvText, splitOn_cons '=' _ _ hk, splitOn_none '=' _ hv]
+    have hk := he p (by simp)
+    have hsp : splitOnFirst ['='] (kvText p) = some (p.1, p.2) := by
+      have := splitOnFirst_found '=' [] p.1 p.2 hk
+      simpa [kvText] using this
     have hlt : ∀ q ∈ m1, strLt q.1 p.1 = true := by
       intro q hq
       have := List.pairwise_append.1 hs
@@ -991,14 +966,23 @@ theorem sw_pieces (t : Str) (ht : Tok t) (m : List (Str × Str)) (hm : ∀ p ∈
     simp only [kvText] at this ⊢
     rw [this]
 
+/-- a key-sorted list is a fixed point of the sort that `Display` applies -/
+theorem sortedExtras_of_sorted (m : List (Str × Str)) (h : KeysSorted m) : sortedExtras m = m := by
+  unfold sortedExtras
+  apply List.mergeSort_of_pairwise
+  exact List.Pairwise.imp (fun {a b} hab => by simp [pairLe, hab]) h
+
+/-- exact side condition.  The extras are a finite map in its canonical representation (keys
+    strictly increasing in code-point order — what a `HashMap` is up to equality); keys are free of
+    white space and of `=`, values free of white space (a value may contain `=`; keys and values may
+    be empty) -/
 structure CanonPkgEntry (e : PkgEntry) : Prop where
   package : Tok e.package
   ptype : Tok e.ptype
   section_ : Tok e.section_
   priority : e.priority ∈ Gen.Enums.priority.variants
-  /-- keys and values: no white space, no `=` (they may be empty) -/
   extra : ∀ p ∈ e.extra, (∀ c ∈ p.1, isWhitespace c = false) ∧ (∀ c ∈ p.2, isWhitespace c = false)
-    ∧ '=' ∉ p.1 ∧ '=' ∉ p.2
+    ∧ '=' ∉ p.1
   sorted : KeysSorted e.extra
 
 theorem kv_tok (p : Str × Str) (h1 : ∀ c ∈ p.1, isWhitespace c = false) (h2 : ∀ c ∈ p.2, isWhitespace c = false) :
@@ -1011,24 +995,32 @@ theorem kv_tok (p : Str × Str) (h1 : ∀ c ∈ p.1, isWhitespace c = false) (h2
   · rw [hc]; decide
   · exact h2 c hc
 
-/-- package-list entries, printed with the extra fields in key order.  `_partial`: the Rust Display
-    prints the extras in `HashMap` iteration order, which is unspecified; this theorem covers the
-    key-sorted order (and hence every entry with at most one extra field). -/
-theorem C18_pkgentry_roundtrip_partial (e : PkgEntry) (h : CanonPkgEntry e) :
+/-- package-list entries with any number of extra fields: `from_str(&v.to_string()) == Ok(v)` -/
+theorem C18_pkgentry_roundtrip (e : PkgEntry) (h : CanonPkgEntry e) :
     PkgEntry.parse (PkgEntry.print e) = some e := by
   have hp := priority_tok_parse e.priority h.priority
   have hm : ∀ p ∈ e.extra, Tok (kvText p) := fun p hp' =>
     kv_tok p (h.extra p hp').1 (h.extra p hp').2.1
   have hx := parseExtras_sorted [] e.extra (by simpa using h.sorted)
-    (fun p hp' => ⟨(h.extra p hp').2.2.1, (h.extra p hp').2.2.2⟩)
+    (fun p hp' => (h.extra p hp').2.2)
   unfold PkgEntry.parse PkgEntry.print PkgEntry.printBase
+  rw [sortedExtras_of_sorted _ h.sorted]
   simp only [List.append_assoc, List.cons_append]
   rw [sw_cons _ _ h.package, sw_cons _ _ h.ptype, sw_cons _ _ h.section_,
     sw_pieces _ hp.1 e.extra hm]
   simp only [hp.2, hx, List.nil_append]
 
+/-- a text whose extras are in strictly increasing key order (i.e. the printed form of a canonical
+    entry) prints back identically -/
+theorem C18_pkgentry_canonical (e : PkgEntry) (h : CanonPkgEntry e) :
+    (PkgEntry.parse (PkgEntry.print e)).map PkgEntry.print = some (PkgEntry.print e)
+    ∧ PkgEntry.print e = e.printBase ++ (extraPieces e.extra).flatten := by
+  refine ⟨by rw [C18_pkgentry_roundtrip e h]; rfl, ?_⟩
+  unfold PkgEntry.print
+  rw [sortedExtras_of_sorted _ h.sorted]
+
 example : CanonPkgEntry ⟨"foo".toList, "deb".toList, "utils".toList, "Optional".toList,
-    [("arch".toList, "any".toList), ("profile".toList, "!stage1".toList)]⟩ where
+    [("arch".toList, "any".toList), ("profile".toList, "!stage1".toList), ("x".toList, "a=b".toList)]⟩ where
   package := by decide
   ptype := by decide
   section_ := by decide
@@ -1036,27 +1028,34 @@ example : CanonPkgEntry ⟨"foo".toList, "deb".toList, "utils".toList, "Optional
   extra := by decide
   sorted := by simp [KeysSorted]; decide
 
-theorem C18_pkgentry_needs_no_equals_in_value :
-    PkgEntry.parse (PkgEntry.print ⟨"p".toList, "deb".toList, "s".toList, "Optional".toList, [("k".toList, "a=b".toList)]⟩)
-      = some ⟨"p".toList, "deb".toList, "s".toList, "Optional".toList, [("k".toList, "a".toList)]⟩ := by decide +kernel
 theorem C18_pkgentry_needs_no_equals_in_key :
     PkgEntry.parse (PkgEntry.print ⟨"p".toList, "deb".toList, "s".toList, "Optional".toList, [("k=a".toList, "b".toList)]⟩)
-      = some ⟨"p".toList, "deb".toList, "s".toList, "Optional".toList, [("k".toList, "a".toList)]⟩ := by decide +kernel
+      = some ⟨"p".toList, "deb".toList, "s".toList, "Optional".toList, [("k".toList, "a=b".toList)]⟩ := by decide +kernel
+theorem C18_pkgentry_needs_key_nows :
+    PkgEntry.parse (PkgEntry.print ⟨"p".toList, "deb".toList, "s".toList, "Optional".toList, [("a b".toList, "v".toList)]⟩)
+      = none := by decide +kernel
 theorem C18_pkgentry_needs_value_nows :
     PkgEntry.parse (PkgEntry.print ⟨"p".toList, "deb".toList, "s".toList, "Optional".toList, [("k".toList, "a b".toList)]⟩)
       = none := by decide +kernel
 theorem C18_pkgentry_needs_package_tok :
     PkgEntry.parse (PkgEntry.print ⟨[], "deb".toList, "s".toList, "Optional".toList, []⟩) = none := by decide +kernel
+theorem C18_pkgentry_needs_priority_variant :
+    PkgEntry.parse (PkgEntry.print ⟨"p".toList, "deb".toList, "s".toList, "Bogus".toList, []⟩) = none := by decide +kernel
+/-- the representation invariant: an association list that is not key-sorted is not the canonical
+    form of its map (the entry that comes back is the canonical one) -/
 theorem C18_pkgentry_needs_sorted_keys :
     PkgEntry.parse (PkgEntry.print ⟨"p".toList, "deb".toList, "s".toList, "Optional".toList,
         [("b".toList, "1".toList), ("a".toList, "2".toList)]⟩)
       = some ⟨"p".toList, "deb".toList, "s".toList, "Optional".toList, [("a".toList, "2".toList), ("b".toList, "1".toList)]⟩ := by
+  have hs : sortedExtras [("b".toList, "1".toList), ("a".toList, "2".toList)]
+      = [("a".toList, "2".toList), ("b".toList, "1".toList)] := by
+    unfold sortedExtras
+    rw [List.mergeSort]
+    simp [List.MergeSort.Internal.splitInTwo, List.merge]
+    decide
+  unfold PkgEntry.print
+  simp only [hs]
   decide +kernel
-
-/-- stated, not proved: the same for *every* order in which the extras may be printed -/
-def C18_pkgentry_any_order_statement : Prop :=
-  ∀ (e : PkgEntry) (order : List (Str × Str)), CanonPkgEntry e → order.Perm e.extra →
-    PkgEntry.parse (e.printBase ++ (extraPieces order).flatten) = some e
 
 /-! ### `parse_identity` -/
 
